@@ -110,6 +110,33 @@ def run(chk, repo):
     par = [a.arg for a in bl.args.args]
     chk.require(par[:4] == ["seq", "size", "hop", "padval"], "blocks signature changed: %s" % par)
     body = docstring_free(bl.body)
+    # one loop for both regimes, told apart inside by a test of hop against size (possibly kept in a flag): read as the
+    # two loops it stands for - the body is specialised for hop <= size and for hop > size (guards resolved, dtable)
+    seq_loop = lambda s_: isinstance(s_, ast.For) and unparse(s_.iter) == "seq"
+    top_for = [s_ for s_ in body if seq_loop(s_)]
+    if len(top_for) == 1 and not any(isinstance(s_, ast.If) and any(seq_loop(n_) for n_ in ast.walk(s_)) for s_ in body):
+        from ..dtable import specialise, Facts as _F
+        from ..core import set_parents
+        i0 = body.index(top_for[0])
+        flags = [s_ for s_ in body[:i0] if isinstance(s_, ast.Assign) and len(s_.targets) == 1 and isinstance(s_.targets[0], ast.Name)
+                 and isinstance(s_.value, (ast.Compare, ast.UnaryOp, ast.BoolOp))
+                 and {n_.id for n_ in ast.walk(s_.value) if isinstance(n_, ast.Name)} <= {"hop", "size"}]
+        fnames = {s_.targets[0].id for s_ in flags}
+
+        def arm(le):
+            F_ = _F(truths={"hop <= size": le, "size >= hop": le, "hop > size": not le, "size < hop": not le})
+            sp = specialise(flags + [top_for[0]], F_)
+            return [s_ for s_ in sp if not (isinstance(s_, ast.Assign) and isinstance(s_.targets[0], ast.Name)
+                                            and s_.targets[0].id in fnames)]
+        synth = ast.If(test=ast.parse("hop <= size", mode="eval").body, body=arm(True), orelse=arm(False))
+        ast.copy_location(synth, top_for[0])
+        for n_ in ast.walk(synth):
+            if not hasattr(n_, "lineno"):
+                n_.lineno = top_for[0].lineno
+        ast.fix_missing_locations(synth)
+        set_parents(synth)
+        synth._parent = getattr(top_for[0], "_parent", None)
+        body = [synth if s_ is top_for[0] else s_ for s_ in body if s_ not in flags]
     env = {}
     size, hop = RF.sym("size"), RF.sym("hop")
     dq = None
